@@ -30,8 +30,10 @@ type Atom struct {
 	K    string
 	Bits uint64 // for bit/any/all
 	Op   string // for cmp
-	V    ssa.Value
-	Ctx  *Ctx
+	// SubjType: the type of the subject of a bit test, when known (to recognise "a test of an Op value" whatever its path)
+	SubjType string
+	V        ssa.Value
+	Ctx      *Ctx
 	// for AkPred / AkBool on calls
 	Callee *ssa.Function
 	Call   *ssa.Call
@@ -47,6 +49,11 @@ func (a *Atom) ID() string {
 		return fmt.Sprintf("errIs(%s,%s)", a.Subj, a.K)
 	}
 	return fmt.Sprintf("%s(%s)", a.Kind, a.Subj)
+}
+
+// isOpSubj: the atom tests bits of a value of the Op type (by its path ending in the Op field, or by its type).
+func isOpSubj(a *Atom) bool {
+	return strings.HasSuffix(a.Subj, ".Op") || strings.HasSuffix(a.SubjType, ".Op")
 }
 
 type Lit struct {
